@@ -1167,6 +1167,7 @@ class Directive:
         self.derivedefault = False
         self.unmodelled = []
         self.onlyif = []
+        self.fallback = None
 
 
 def indent_of(sf, tokidx):
@@ -1284,6 +1285,8 @@ def audit_closures(d, sf, lo, hi, ed, fname, entry, r3b=False):
             last = [k for k in range(body + 1, bend - 1) if toks[k].kind not in TRIVIA]
             if not last or toks[last[-1]].text == ";":
                 continue    # the closure's value is `()`: nothing is over-approximated
+        elif [toks[k].text for k in range(body, bend) if toks[k].kind not in TRIVIA] == ["(", ")"]:
+            continue        # `|x| ()`: the same
         params = [toks[k].text for k in range(p0 + 1, p1) if toks[k].kind == "ident"]
         inner = [k for k in range(p0 + 1, p1) if toks[k].kind not in TRIVIA]
         single = len(inner) == 1 and len(params) == 1
@@ -1788,7 +1791,7 @@ def render_item(d, it, repo_root, registry):
     return out
 
 
-OPTION_KW = ("ret", "req", "ens", "props", "loop", "closure", "rule", "attr", "dropattr", "canary", "rename", "prefix", "from", "upto", "uptosemi", "before", "tail", "toend", "block", "blocknth", "bytesconst", "count", "execconst", "derivedefault", "unmodelled", "onlyif")
+OPTION_KW = ("ret", "req", "ens", "props", "loop", "closure", "rule", "attr", "dropattr", "canary", "rename", "prefix", "from", "upto", "uptosemi", "before", "tail", "toend", "block", "blocknth", "bytesconst", "count", "execconst", "derivedefault", "unmodelled", "onlyif", "fallback")
 _lab_re = re.compile(r"^(req|ens|inv)(\[([^\]]+)\])?\s+(.*)$", re.S)
 
 
@@ -1920,6 +1923,11 @@ def parse_options(d, lines, unit_name):
             # the other clauses of the function stay decisive
             txt, labels = rest.split("##")
             d.unmodelled.append((txt.strip(), labels.split()))
+        elif w == "fallback":
+            # `fallback <file> <item path>`: what to extract when the named item does not exist (a trait's provided method that takes over when
+            # the impl's override is deleted)
+            fp, ipath = rest.split(None, 1)
+            d.fallback = (fp, ipath.strip())
         elif w == "onlyif":
             # `onlyif <token text> ## <label> ..`: the listed clauses rest on a shape of the body (e.g. a lock guard that lives as the
             # temporary of a `match` scrutinee); when the token sequence is gone, their failure is reported UNDECIDED
@@ -2018,7 +2026,20 @@ def expand(template_path, repo_root, verif_root, registry, _depth=0):
         if not os.path.exists(path):
             raise ExtractError("anchor lost: %s does not exist" % arg1)
         sf = SourceFile.get(path)
-        for it in sf.find(arg2):
+        try:
+            found_items = sf.find(arg2)
+        except ExtractError:
+            if not getattr(d, "fallback", None):
+                raise
+            # `fallback <file> <item path>`: the method of a trait impl is gone: the trait's provided (default) method is what runs now;
+            # it is verified against the same contract (e.g. `impl LogWriter for FileLogWriter / fn reopen_output` -> `trait LogWriter / fn reopen_output`)
+            fpath = os.path.join(repo_root, d.fallback[0])
+            if not os.path.exists(fpath):
+                raise
+            sf = SourceFile.get(fpath)
+            found_items = sf.find(d.fallback[1])
+            d.query = d.fallback[1] + " [fallback for " + arg2 + "]"
+        for it in found_items:
             if item_cfg_false(sf, it):
                 # a platform / feature alternative of the same name that is not compiled under the unit's cfg (rule CFG)
                 continue
